@@ -384,6 +384,48 @@ struct HCv : Harness {
     return rc == SIM_OK;
   }
 
+
+  // Bootstrap CV recomputed through the public API only: folds from random_kfold_group_generator seeded with the formula the
+  // routine documents (group + objects + responses + iterations + iteration index), split with kfold_group_train_test_split,
+  // learner fitted and applied exactly as a user would.  Used only after the formula has been validated on this very tree.
+  struct BootRef { const Case *c; int iterations; Mat mean; bool ok; };
+  static void boot_reference(void *a_) {
+    BootRef &a = *(BootRef *)a_; const Case &c = *a.c;
+    size_t n = c.X.size(), ny = c.Y[0].size();
+    matrix *x = to_matrix(c.X), *y = to_matrix(c.Y);
+    Mat sum; std::vector<double> cnt(n, 0.0);
+    for (int it = 0; it < a.iterations; it++) {
+      unsigned seed = (unsigned)((size_t)c.groups + n + ny + (size_t)a.iterations + (size_t)it);
+      matrix *gid; initMatrix(&gid);
+      random_kfold_group_generator(gid, (size_t)c.groups, n, &seed);
+      for (size_t g = 0; g < gid->row; g++) {
+        matrix *xtr, *ytr, *xte, *yte, *py; initMatrix(&xtr); initMatrix(&ytr); initMatrix(&xte); initMatrix(&yte); initMatrix(&py);
+        kfold_group_train_test_split(x, y, gid, g, xtr, ytr, xte, yte);
+        if (c.learner == L_PLS) { PLSMODEL *m; NewPLSModel(&m); size_t nlv = (size_t)c.nlv; if (nlv > x->col) nlv = x->col; PLS(xtr, ytr, nlv, (size_t)c.xs, (size_t)c.ys, m, NULL); PLSYPredictorAllLV(xte, m, NULL, py); DelPLSModel(&m); }
+        else if (c.learner == L_MLR) { MLRMODEL *m; NewMLRModel(&m); MLR(xtr, ytr, m, NULL); MLRPredictY(xte, NULL, m, py, NULL, NULL, NULL); DelMLRModel(&m); }
+        else { LDAMODEL *m; NewLDAModel(&m); LDA(xtr, ytr, m); matrix *pf, *pb, *mn; initMatrix(&pf); initMatrix(&pb); initMatrix(&mn); LDAPrediction(xte, m, pf, pb, mn, py); DelMatrix(&pf); DelMatrix(&pb); DelMatrix(&mn); DelLDAModel(&m); }
+        if (sum.empty()) sum.assign(n, std::vector<double>(py->col, 0.0));
+        size_t k2 = 0;
+        for (size_t j = 0; j < gid->col; j++) { int o2 = (int)gid->data[g][j]; if (o2 < 0) continue; if (k2 < py->row && (size_t)o2 < n) { for (size_t q = 0; q < py->col && q < sum[o2].size(); q++) sum[o2][q] += py->data[k2][q]; cnt[o2] += 1; } k2++; }
+        DelMatrix(&xtr); DelMatrix(&ytr); DelMatrix(&xte); DelMatrix(&yte); DelMatrix(&py);
+      }
+      DelMatrix(&gid);
+    }
+    a.ok = !sum.empty();
+    for (size_t i = 0; i < n && a.ok; i++) { if (cnt[i] == 0) { a.ok = false; break; } for (double &v : sum[i]) v /= cnt[i]; }
+    a.mean = sum;
+    DelMatrix(&x); DelMatrix(&y);
+  }
+  bool boot_by_public_api(const Case &c, int iterations, Mat &mean) {
+    BootRef a{&c, iterations, {}, false};
+    sim_cfg sc; sim_cfg_default(&sc); sc.detect_races = 0; sc.nproc = 1; sc.step_limit = STEP_CEILING;
+    sim_begin_run(&sc);
+    int rc = sim_guard(boot_reference, &a);
+    sim_end_run(nullptr);
+    mean = a.mean;
+    return rc == SIM_OK && a.ok;
+  }
+
   void check_generators(const Plan &p, const Case &c, Outcome &o) {
     (void)p;
     // random_kfold_group_generator / kfold_group_train_test_split / train_test_split called directly
@@ -544,6 +586,23 @@ struct HCv : Harness {
             if (!close_rel(B.pred[test[k2]][jj], ref[k2][jj], 1e-7, 1e-9)) { char m[300]; snprintf(m, sizeof m, "bootstrap %s: prediction[%zu][%zu]=%.12g, refit on the complement of its fold gives %.12g", learner_name[c.learner], test[k2], jj, B.pred[test[k2]][jj], ref[k2][jj]); o.fail("not-out-of-sample", m); break; }
         }
         o.counters["probe.folds_inferred"]++;
+      }
+    }
+
+    // (g) bootstrap with several iterations: the reported prediction is the plain mean, over the iterations, of out-of-sample
+    //     predictions.  The per-iteration folds are not observable, so the routine's documented seed formula is used -- but only
+    //     after it has been validated on this very tree: a one-iteration run must equal its public-API reconstruction.
+    if (!o.violation && c.routine == R_BOOT && c.iters > 1 && p.geti("boot_mean_check", 1)) {
+      Case c1 = c; c1.iters = 1;
+      Out O1; RunRes r1 = run_once(p, c1, O1, SIM_S0_SEQUENTIAL, 1, c.nproc, false, 0);
+      o.steps += r1.sr.steps;
+      Mat ref1, refI; std::string w2;
+      bool formula_ok = r1.rc == SIM_OK && boot_by_public_api(c1, 1, ref1) && mats_close(O1.pred, ref1, 1e-9, 1e-10, &w2);
+      if (!formula_ok) o.counters["skipped.seed_formula_not_validated"]++;
+      else if (boot_by_public_api(c, c.iters, refI)) {
+        if (!mats_close(B.pred, refI, 1e-9, 1e-10, &w2)) { char m[400]; snprintf(m, sizeof m, "bootstrap %s, %d iterations, %d threads: prediction is not the mean over the iterations of refits on the other folds: %s", learner_name[c.learner], c.iters, c.nthreads, w2.c_str()); o.fail("not-mean-of-out-of-sample", m); }
+        o.counters["probe.bootstrap_mean_verified"]++;
+        if (c.iters > c.nthreads) o.counters["probe.bootstrap_several_batches"]++;
       }
     }
     if (o.violation && !p.has("sched.switches")) o.switch_list = rb.switches;
